@@ -64,26 +64,26 @@ theorem acc_disconnectSelectable (acc : Bytes) (v : View) (w : Reason) (r : Bool
   · exact acc_connLost acc _ _ (acc_conn acc _ _ rfl rfl rfl h')
 
 theorem acc_doRead (acc : Bytes) (p : Params) (v : View) (n : Nat) (h : AccIs acc v) :
-    AccIs acc (doRead p v n).2 := by
+    AccIs acc (doRead0 p v n).2 := by
   by_cases ha : v.c.aborting = true
-  · simp [doRead, ha]; exact h
+  · simp [doRead0, ha]; exact h
   by_cases hn : n = 0
-  · simp [doRead, kRecv, ha, hn]; exact h
+  · simp [doRead0, kRecv, ha, hn]; exact h
   by_cases hq : v.k.inq.isEmpty = true
   · by_cases hr : v.k.inRst = true
-    · simp [doRead, kRecv, ha, hn, hq, hr]; exact h
+    · simp [doRead0, kRecv, ha, hn, hq, hr]; exact h
     · by_cases hf : v.k.inFin = true
-      · simp [doRead, kRecv, ha, hn, hq, hr, hf]; exact h
-      · simp [doRead, kRecv, ha, hn, hq, hr, hf]; exact h
-  · simp [doRead, kRecv, ha, hn, hq]; exact h
+      · simp [doRead0, kRecv, ha, hn, hq, hr, hf]; exact h
+      · simp [doRead0, kRecv, ha, hn, hq, hr, hf]; exact h
+  · simp [doRead0, kRecv, ha, hn, hq]; exact h
 
 theorem acc_doWrite (acc : Bytes) (p : Params) (v : View) (n : Nat) (h : AccIs acc v) :
-    AccIs acc (doWrite p v n).2 := by
+    AccIs acc (doWrite0 p v n).2 := by
   have hm : AccIs acc { v with c := mergeBuf p v.c } := by
     unfold mergeBuf; split
     · exact acc_conn acc v _ rfl rfl rfl h
     · exact h
-  unfold doWrite
+  unfold doWrite0
   split
   · exact h
   · dsimp only
@@ -97,7 +97,7 @@ theorem acc_doWrite (acc : Bytes) (p : Params) (v : View) (n : Nat) (h : AccIs a
     cases r with
     | none => exact hv'
     | some l =>
-      show AccIs acc (afterSend v' _ l).2
+      show AccIs acc (afterSend0 v' _ l).2
       rw [afterSend_eq]
       split
       · unfold finishW
@@ -112,8 +112,8 @@ theorem acc_doWrite (acc : Bytes) (p : Params) (v : View) (n : Nat) (h : AccIs a
       · exact acc_conn acc v' _ rfl rfl rfl hv'
 
 theorem acc_io (acc : Bytes) (p : Params) (v : View) (i o h : Bool) (nr nw : Nat) (hv : AccIs acc v) :
-    AccIs acc (io p v i o h nr nw) :=
-  io_preserves (AccIs acc) p (fun v n => acc_doRead acc p v n) (fun v n => acc_doWrite acc p v n)
+    AccIs acc (io0 p v i o h nr nw) :=
+  io0_preserves (AccIs acc) p (fun v n => acc_doRead acc p v n) (fun v n => acc_doWrite acc p v n)
     (fun v w r => acc_disconnectSelectable acc v w r) v i o h nr nw hv
 
 end TwistedProps.C15
